@@ -117,3 +117,59 @@ def bounded_paint(tier, prop, rule, ignore=()):
     if "scenarios_tried" not in r:
         out["error"] = r.get("search_error", "no result")
     return out
+
+
+def bounded_conformance(tier, groups, seed=0):
+    """native conformance tests of the assumed library contracts (native/conformance.py): samples, not a proof"""
+    size = "thorough" if tier == "thorough" else "quick"
+    r = run_harness("conformance.py", ["--what", groups, "--size", size, "--seed", str(seed)], 900)
+    out = {"name": "model-conformance:" + groups, "rule": "the assumed external contracts of " + groups + " (what the models in pyvc/*model.py and contracts/*.py say about "
+           "the real libraries) hold on random small inputs", "bound": size, "cases": r.get("cases", 0), "nontrivial": r.get("nontrivial", 0),
+           "exhaustive": False, "wall_s": r.get("wall"), "violations": [dict(v, script="conformance.py") for v in r.get("violations", [])]}
+    if "cases" not in r:
+        out["error"] = r.get("search_error", "no result")
+        out["violations"] = []
+    return out
+
+
+def declared_shape():
+    """{class name: [field names]} of the SolutionTracks heap the proofs declare (both with and without segmentation)"""
+    from .core import Ctx
+    from .tracksfactory import make_tracks
+    from .values import Instance
+    from .verify import make_interp
+    out = {}
+    for has_seg in (False, True):
+        ctx = Ctx()
+        I = make_interp(ctx)
+        W = make_tracks(I, has_seg=has_seg)
+        seen, todo = set(), [W.tracks]
+        while todo:
+            o = todo.pop()
+            if id(o) in seen or not isinstance(o, Instance):
+                continue
+            seen.add(id(o))
+            out.setdefault(o.cls.name, set()).update(k for k in o.fields)
+            todo.extend(o.fields.values())
+            if isinstance(o.store, list):
+                todo.extend(o.store)
+    return {k: sorted(v) for k, v in out.items()}
+
+
+def bounded_shape(tier):
+    import tempfile
+    shape = declared_shape()
+    with tempfile.NamedTemporaryFile("w", suffix=".json", delete=False) as f:
+        json.dump(shape, f)
+        path = f.name
+    try:
+        r = run_harness("shape_check.py", [path], 300)
+    finally:
+        os.unlink(path)
+    out = {"name": "declared-heap-shape", "rule": "every field the proofs declare on SolutionTracks, its FeatureDict, ActionHistory, AnnotatorRegistry and the three annotators "
+           "exists on really constructed objects (with and without segmentation)", "bound": f"{sum(len(v) for v in shape.values())} fields of {len(shape)} classes",
+           "cases": r.get("cases", 0), "nontrivial": r.get("nontrivial", 0), "exhaustive": True, "violations": [dict(v, script="shape_check.py") for v in r.get("violations", [])]}
+    if "cases" not in r:
+        out["error"] = r.get("search_error", "no result")
+        out["violations"] = []
+    return out
